@@ -24,6 +24,7 @@
 
 #include <nlohmann/json.hpp>
 
+#include <algorithm>
 #include <fstream>
 #include <set>
 #include <sstream>
@@ -402,8 +403,17 @@ int main(int argc, char** argv) {
       rr = drive(c);
       std::string s = vrt::sched_json(rr);
       if (rr.deadlock) {
+        // no thread is runnable although some are unfinished (exact deadlock), or the step limit was reached: threads
+        // only poll each other / the execution does not terminate (no progress).  Correct code finishes these scenarios
+        // within a few hundred steps.
+        bool limit = !seam::enabled_set(c).empty();
         std::string where;
         for (auto& [id, u] : c.thr) if (!c.finished(id)) where += " " + std::to_string(id) + "@" + c.site(id);
+        if (limit) {                                   // keep the message short: first 300 thread choices
+          vrt::RunResult head; head.steps.assign(rr.steps.begin(), rr.steps.begin() + std::min<size_t>(300, rr.steps.size()));
+          s = vrt::sched_json(head);
+          where += " (no progress: step limit reached)";
+        }
         vrt::ev("{\"e\":\"Deadlock\",\"i\":0,\"t\":0,\"sched\":%s,\"where\":\"%s\"}", s.c_str(), where.c_str());
         vrt::log_flush();
         std::fprintf(stderr, "deadlock in scenario %d schedule %s threads:%s\n", sc.id, s.c_str(), where.c_str());
